@@ -422,13 +422,151 @@ def construct (schema : List (Str × Tag × PyVal)) (intrinsic : List (Str × St
 def mdRaw (mt : List (Str × List Str)) : Settings :=
   mt.map (fun kv => (kv.1, .list (kv.2.map .str)))
 
+/-! (`normalise_path`; defined here because the include workaround resolves file names too) -/
+
+def normSegs : List Str → List Str → List Str
+  | [], acc => acc.reverse
+  | seg :: rest, acc =>
+    if seg == [] || seg == ['.'] then normSegs rest acc
+    else if seg == ['.', '.'] then normSegs rest acc.tail
+    else normSegs rest (seg :: acc)
+
+/-- `(base_dir / p).absolute().resolve()` for an absolute `base_dir`, no symlinks, no `$` -/
+def normPath (dir p : Str) : Str :=
+  let full := if startsWith p ['/'] then p else dir ++ '/' :: p
+  '/' :: joinSep '/' (normSegs (splitChar '/' full) [])
+
+/-! ### the "file inclusion in metadata" workaround of `load_markdown_settings` (round 6)
+
+    for option, value in settings.items():
+        if isinstance(value, str) and MD_INCLUDE_RE.match(value):
+            md_base_dir = settings.get("md_base_dir", directory)
+            ... settings[option] = "\n".join(IncludePreprocessor(base_path=str(md_base_dir)).run(value.splitlines()))
+
+  `MD_INCLUDE_RE = \{!\s*(.+?)\s*!\}`.  The model is exact on the documented shape of an include
+  statement (`pre{! name !}post`, one per line, `name` free of blanks and of `{`, `}`, `!`, `~`; included
+  files free of include statements) and `unmodelled` on every other text that contains `{!`. -/
+
+/-- what the include step needs to know about the outside world -/
+structure IncEnv where
+  /-- the working directory -/
+  cwd : Str := ['/']
+  /-- `directory` as `initialize` computed it (`os.path.dirname` of the project file as typed) -/
+  directory : Str := []
+  /-- readable files: (normalised absolute name ↦ lines without line ends) -/
+  files : List (Str × List Str) := []
+  /-- variant switch (`repaired`): the base directory is `Path(directory) / md_base_dir` -/
+  baseFromProject : Bool := false
+
+/-- `"{!" in s` -/
+def hasIncOpen : Str → Bool
+  | [] => false
+  | [_] => false
+  | a :: b :: r => (a == '{' && b == '!') || hasIncOpen (b :: r)
+
+/-- (text before the first `{!`, text after it) -/
+def splitIncOpen : Str → Str → Option (Str × Str)
+  | [], _ => none
+  | [_], _ => none
+  | a :: b :: r, acc =>
+    if a == '{' && b == '!' then some (acc.reverse, r) else splitIncOpen (b :: r) (a :: acc)
+
+def isIncNameChar (c : Char) : Bool :=
+  !(isSpace c) && c != '!' && c != '{' && c != '}' && c != '~' && c != '$'
+
+inductive IncLine
+  | plain
+  | inc (pre name post : Str)
+  | other
+  deriving DecidableEq, Repr
+
+def incParse (line : Str) : IncLine :=
+  match splitIncOpen line [] with
+  | none => .plain
+  | some (pre, rest) =>
+    let r1 := rest.dropWhile isSpace
+    let name := r1.takeWhile isIncNameChar
+    let r2 := (r1.dropWhile isIncNameChar).dropWhile isSpace
+    match name, r2 with
+    | _ :: _, '!' :: '}' :: post => if hasIncOpen post then .other else .inc pre name post
+    | _, _ => .other
+
+/-- `os.path.join(base, name)` -/
+def pjoin (base name : Str) : Str :=
+  if startsWith name ['/'] || base.isEmpty then name else base ++ '/' :: name
+
+def appendLast (post : Str) : List Str → List Str
+  | [] => []
+  | [x] => [x ++ post]
+  | x :: y :: r => x :: appendLast post (y :: r)
+
+/-- `text[0] = pre + text[0]; text[-1] = text[-1] + post` -/
+def glue (pre post : Str) : List Str → List Str
+  | [] => [pre ++ post]
+  | t :: ts => appendLast post ((pre ++ t) :: ts)
+
+/-- `IncludePreprocessor(base_path=base).run(lines)` on the modelled fragment -/
+def runInclude (env : IncEnv) (base : Str) : List Str → Except Err (List Str)
+  | [] => .ok []
+  | l :: rest =>
+    match runInclude env base rest with
+    | .error e => .error e
+    | .ok rest' =>
+      match incParse l with
+      | .plain => .ok (l :: rest')
+      | .other => .error .unmodelled
+      | .inc pre name post =>
+        match aget (normPath env.cwd (pjoin base name)) env.files with
+        | none =>   -- "could not find file ... Ignoring include statement"
+          if hasIncOpen (pre ++ post) then .error .unmodelled else .ok ((pre ++ post) :: rest')
+        | some text =>
+          let new := glue pre post text
+          if new.any hasIncOpen then .error .unmodelled else .ok (new ++ rest')
+
+/-- `str.splitlines()` for `\n` only -/
+def splitLines (s : Str) : List Str :=
+  if s.isEmpty then [] else
+  let ps := splitChar '\n' s
+  if ps.getLast? == some [] then ps.dropLast else ps
+
+/-- the base directory handed to `IncludePreprocessor` -/
+def incBase (env : IncEnv) (cur : Settings) : Option Str :=
+  match aget "md_base_dir".toList cur with
+  | none => some (if env.baseFromProject then pjoin env.directory ['.'] else env.directory)
+  | some (.atom (.str b)) => some (if env.baseFromProject then pjoin env.directory b else b)
+  | some _ => none
+
+/-- the loop over `settings.items()`; `cur` is the dict as it stands -/
+def includeStep (env : IncEnv) : Settings → Settings → Except Err Settings
+  | [], cur => .ok cur
+  | (k, .atom (.str s)) :: rest, cur =>
+    if startsWith s ['{', '!'] then
+      match incBase env cur with
+      | none => .error .unmodelled
+      | some base =>
+        match runInclude env base (splitLines s) with
+        | .error e => .error e
+        | .ok ls => includeStep env rest (aset k (.atom (.str (joinSep '\n' ls))) cur)
+    else includeStep env rest cur
+  | _ :: rest, cur => includeStep env rest cur
+
+/-- does any converted value open with an include statement? (the decidable class outside which the
+    include step is the identity) -/
+def opensInclude : Settings → Bool
+  | [] => false
+  | (_, .atom (.str s)) :: rest => startsWith s ['{', '!'] || opensInclude rest
+  | _ :: rest => opensInclude rest
+
 /-- `load_markdown_settings`: preprocess, convert, convert again inside
     `from_markdown_metadata`, construct. -/
 def loadMd (schema : List (Str × Tag × PyVal)) (seps : List (Str × Str)) (intrinsic : List (Str × Str))
-    (lines : List Str) (userWins : Bool := false) : Except Err (Settings × List Str) :=
+    (lines : List Str) (userWins : Bool := false) (env : IncEnv := {}) : Except Err (Settings × List Str) :=
   match convertMeta schema seps (mdRaw (metaPre lines).1) with
   | .error e => .error e
   | .ok (kw, warns) =>
+    match includeStep env kw kw with
+    | .error e => .error e
+    | .ok kw =>
     match convertMeta schema seps kw with
     | .error e => .error e
     | .ok (kw2, _) =>
@@ -469,18 +607,6 @@ def cliNamespace : List (Str × CliKind × Option PyVal) → Settings → Settin
       | none => cliNamespace rest given
 
 /-! ### `normalise_paths` -/
-
-def normSegs : List Str → List Str → List Str
-  | [], acc => acc.reverse
-  | seg :: rest, acc =>
-    if seg == [] || seg == ['.'] then normSegs rest acc
-    else if seg == ['.', '.'] then normSegs rest acc.tail
-    else normSegs rest (seg :: acc)
-
-/-- `(base_dir / p).absolute().resolve()` for an absolute `base_dir`, no symlinks, no `$` -/
-def normPath (dir p : Str) : Str :=
-  let full := if startsWith p ['/'] then p else dir ++ '/' :: p
-  '/' :: joinSep '/' (normSegs (splitChar '/' full) [])
 
 def normAtom (dir : Str) : Atom → Option Atom
   | .str s => some (.path (normPath dir s))
@@ -645,13 +771,14 @@ def generatedTables : Tables :=
 def generatedTablesModsRepaired : Tables := { generatedTables with modsUserWins := true }
 
 /-- `load_settings`: `[extra.ford]` of fpm.toml when present, else the metadata block -/
-def loadSettings (T : Tables) (toml : Option Settings) (md : List Str) : Except Err (Settings × List Str) :=
+def loadSettings (T : Tables) (toml : Option Settings) (md : List Str) (env : IncEnv := {}) :
+    Except Err (Settings × List Str) :=
   match toml with
   | some kw =>
     match construct T.schema T.intrinsic kw T.modsUserWins with
     | .ok s => .ok (s, [])
     | .error e => .error e
-  | none => loadMd T.schema T.seps T.intrinsic md T.modsUserWins
+  | none => loadMd T.schema T.seps T.intrinsic md T.modsUserWins env
 
 /-- `if proj_data.output_dir not in proj_data.exclude_dir: proj_data.exclude_dir.append(proj_data.output_dir)`
     (both normalised by then; anything else than a list and a path is left alone) -/
@@ -676,8 +803,8 @@ def parseArguments (T : Tables) (dir pkg : Str) (config : Option Settings) (cli 
     | .ok s => finalize T.licenses (if T.excludeFinalOut then excludeOutputDir s else s)
 
 def effective (T : Tables) (dir pkg : Str) (toml : Option Settings) (md : List Str)
-    (config : Option Settings) (cli : Settings) : Except Err (Settings × List Str) :=
-  match loadSettings T toml md with
+    (config : Option Settings) (cli : Settings) (env : IncEnv := {}) : Except Err (Settings × List Str) :=
+  match loadSettings T toml md env with
   | .error e => .error e
   | .ok (s, w) =>
     match parseArguments T dir pkg config cli s with
